@@ -111,4 +111,13 @@ def strategy(tier):
     return gen.scenario(CFG, flags=FLAGS, max_choices=60, controls=CONTROLS, canceled=True)
 
 
-PARTS = [Part("status-invariant", run, strategy, {"quick": 2400, "thorough": 60000}, rule=RULE)]
+def strat_directed(tier):
+    # branches that fail into the join (remediated), fail unhandled, or never arrive, with control requests
+    # landing while the last of them reports
+    return gen.directed_scenario(gen.fork_join_ir(items=True, retry=True), flags={"pending": 1}, controls=CONTROLS, max_choices=60, p_fail=0.3)
+
+
+PARTS = [
+    Part("status-invariant", run, strategy, {"quick": 2000, "thorough": 60000}, rule=RULE),
+    Part("fork-join", run, strat_directed, {"quick": 1200, "thorough": 30000}, rule="directed fork-join definitions with failing / remediated / missing branches and control requests"),
+]
